@@ -30,9 +30,11 @@ def decode(data: bytes) -> dict:
         c = d.i(0, n - 1)
         r = d.i(0, 9)
         if r < 3:
-            case["events"].append({"e": "connect", "c": c, "handshake": not d.p(0.15)})
-        elif r < 7:
+            case["events"].append({"e": "connect", "c": c, "handshake": not d.p(0.15), "split": d.p(0.3)})
+        elif r < 6:
             case["events"].append({"e": "cmd", "c": c, "k": d.i(0, len(CMDS) - 1)})
+        elif r < 7:
+            case["events"].append({"e": "pipeline", "c": c, "k": d.i(0, len(CMDS) - 1), "k2": d.i(0, len(CMDS) - 1)})
         else:
             case["events"].append({"e": "disc", "c": c, "how": d.pick(["close", "eof", "abort", "reset"])})
     case["stop_at"] = d.i(0, len(case["events"]))
@@ -214,7 +216,17 @@ class C19Engine(Engine):
                         continue
                     c.shaken = False
                     if ev.get("handshake", True):
-                        c.w.write(json.dumps({"terminal_width": 80}).encode() + b"\n")
+                        hs = json.dumps({"terminal_width": 80}).encode() + b"\n"
+                        if ev.get("split"):
+                            c.w.write(hs[:7])           # the handshake line arrives in two pieces
+                            try:
+                                await c.w.drain()
+                            except (ConnectionError, OSError):
+                                pass
+                            await asyncio.sleep(0.005)
+                            c.w.write(hs[7:])
+                        else:
+                            c.w.write(hs)
                         try:
                             await c.w.drain()
                             name = await asyncio.wait_for(c.r.readline(), BOUND)
@@ -239,6 +251,28 @@ class C19Engine(Engine):
                     await ask(c, ev["k"])
                     if stopped:
                         c.shaken = False       # that session may legitimately have ended after this line
+                elif ev["e"] == "pipeline":
+                    if c.w is None or not c.shaken or stopped:
+                        continue
+                    # two command lines in one segment: two replies, in order
+                    (l1, w1), (l2, w2) = CMDS[ev["k"]], CMDS[ev["k2"]]
+                    labels.add("pipelined-commands")
+                    try:
+                        c.w.write(l1.encode() + b"\n" + l2.encode() + b"\n")
+                        await c.w.drain()
+                        r1 = await asyncio.wait_for(c.r.readline(), BOUND)
+                        r2 = await asyncio.wait_for(c.r.readline(), BOUND)
+                    except asyncio.TimeoutError:
+                        if await idle_witness():
+                            fail("command/pipelined-lines-not-both-answered", f"{l1} + {l2}")
+                        else:
+                            state["inconclusive"] = "reply slow"
+                        continue
+                    except (ConnectionError, OSError) as e:
+                        fail("command/connection-broken", f"{l1}+{l2}: {e!r}")
+                        continue
+                    if (r1, r2) != (w1.encode() + b"\n", w2.encode() + b"\n"):
+                        fail("command/pipelined-replies-wrong", f"{l1} + {l2}: {r1!r} {r2!r}")
                 elif ev["e"] == "disc":
                     if c.w is None:
                         continue
